@@ -318,12 +318,54 @@ def _convert(node, lenient: bool, sql_of):
     return opaque()
 
 
+def sqlite_affinity(type_name: str) -> str:
+    """SQLite decides the affinity of CAST(x AS <name>) from the SPELLING of the type name (sqlite.org/datatype3.html 3.1);
+    sqlglot maps several spellings to one DataType, so the spelling is checked on the text"""
+    n = type_name.upper()
+    if "INT" in n:
+        return "int"
+    if "CHAR" in n or "CLOB" in n or "TEXT" in n:
+        return "text"
+    if "BLOB" in n:
+        return "blob"
+    if "REAL" in n or "FLOA" in n or "DOUB" in n:
+        return "float"
+    return "numeric"
+
+
+def _cast_types(node):
+    k = node[0]
+    if k == "cast":
+        return _cast_types(node[1]) + [node[2]]
+    out = []
+    for x in node[1:]:
+        if isinstance(x, tuple) and x and isinstance(x[0], str):
+            out += _cast_types(x)
+        elif isinstance(x, list):
+            for y in x:
+                if isinstance(y, tuple) and y and isinstance(y[0], str):
+                    out += _cast_types(y)
+                elif isinstance(y, tuple):
+                    for z in y:
+                        if isinstance(z, tuple) and z and isinstance(z[0], str):
+                            out += _cast_types(z)
+    return out
+
+
 def parse_sql(sql: str, dialect: str, lenient: bool = False):
     try:
         tree = sqlglot.parse_one(sql, dialect=_DIALECTS[dialect])
     except Exception as e:  # sqlglot ParseError / TokenError
         raise Untranslatable(f"sqlglot cannot parse: {e}") from e
-    return _convert(tree, lenient, None)
+    node = _convert(tree, lenient, None)
+    if dialect == "sqlite":
+        # the type sqlglot understood (text / int / float / date) must be the affinity SQLite derives from the spelled name
+        spelled = sorted(sqlite_affinity(m) for m in re.findall(r"(?is)\bAS\s+([A-Za-z_][A-Za-z_0-9 ]*?)\s*\)", sql))
+        meant = sorted({"date": "numeric", "double": "float", "real": "float", "integer": "int", "bigint": "int", "varchar": "text"}.get(t, t)
+                       for t in _cast_types(node))
+        if spelled != meant:
+            raise Untranslatable(f"SQLite type affinity: CAST types spelled {spelled} but meant {meant} in: {' '.join(sql.split())[:120]}")
+    return node
 
 
 # ------------------------------------------------------------------------------------------
@@ -457,6 +499,16 @@ def level_grid(tier: str) -> list[LevelInst]:
         cp = C("name", ("regex", pat, 0))
         add("NullLevel", "pattern:" + pat, lambda pat=pat: cll.NullLevel("name", valid_string_pattern=pat),
             lambda d, cp=cp: "gen_null %s %s" % lr(cp, d), "null_pattern", [name], pattern=pat)
+    # ColumnExpression.cast_to_string on a TEXT column holding zero-padded / non-numeric codes (a CAST whose type name has
+    # NUMERIC affinity on SQLite would turn '00123' into 123 and 'AB12' into 0)
+    code = C("code", ("cast_str",))
+    add("NullLevel", code.label(), lambda: cll.NullLevel(code.splink()), lambda d: "gen_null %s %s" % lr(code, d), "null", [code])
+    add("ExactMatchLevel", code.label(), lambda: cll.ExactMatchLevel(code.splink()), lambda d: "gen_exact %s %s" % lr(code, d), "exact", [code])
+    add("LevenshteinLevel", code.label() + ":1", lambda: cll.LevenshteinLevel(code.splink(), 1),
+        lambda d: "gen_fn_thresh %s false %s %s (VInt 1)" % ((coq_string(fname(d, "levenshtein")),) + lr(code, d)), "metric", [code],
+        role="levenshtein", threshold=1, higher=False)
+    code2 = C("code", ("cast_str",), ("lower",), ("substr", 1, 4))
+    add("ExactMatchLevel", code2.label(), lambda: cll.ExactMatchLevel(code2.splink()), lambda d: "gen_exact %s %s" % lr(code2, d), "exact", [code2])
     # ExactMatchLevel
     for c in name_variants + [amount]:
         add("ExactMatchLevel", c.label(), lambda c=c: cll.ExactMatchLevel(c.splink()),
@@ -815,6 +867,56 @@ def comparison_grid(tier: str) -> list[CompInst]:
             kw["forename_surname_concat_col_name"] = "name"
         add("ForenameSurnameComparison", key, lambda kw=kw: cl.ForenameSurnameComparison("fn", "sn", **kw),
             dict({"fn": "str", "sn": "str"}, **({"name": "str"} if concat else {})), expected)
+    # ---- comparison creators built from a ColumnExpression (not a plain column name): every level of the comparison must carry
+    # the SAME transformed expression (documented level list built from the same ColSpec)
+    tvars = [C("name", ("lower",)), C("name", ("lower",), ("substr", 1, 4))]
+    for cs in tvars:
+        lab = "CE:" + cs.label()
+        add("ExactMatch", lab, lambda cs=cs: cl.ExactMatch(cs.splink()), {"name": "str"},
+            lambda d, cs=cs: [Gen(d).null(cs), Gen(d).exact(cs), Gen.ELSE])
+        for cls, role, ths in [("LevenshteinAtThresholds", "levenshtein", [1, 2]), ("DamerauLevenshteinAtThresholds", "damerau_levenshtein", [1]),
+                               ("JaccardAtThresholds", "jaccard", [0.9, 0.7]), ("JaroAtThresholds", "jaro", [0.9, 0.7]),
+                               ("JaroWinklerAtThresholds", "jaro_winkler", [0.9, 0.7])]:
+            add(cls, lab, lambda cls=cls, cs=cs, ths=ths: getattr(cl, cls)(cs.splink(), ths), {"name": "str"},
+                lambda d, role=role, ths=ths, cs=cs: [Gen(d).null(cs), Gen(d).exact(cs)] + [Gen(d).th(role, t, cs) for t in ths] + [Gen.ELSE])
+        add("DistanceFunctionAtThresholds", lab, lambda cs=cs: cl.DistanceFunctionAtThresholds(cs.splink(), "levenshtein", [1, 3], False), {"name": "str"},
+            lambda d, cs=cs: [Gen(d).null(cs), Gen(d).exact(cs), Gen(d).fnth("levenshtein", 1, False, cs), Gen(d).fnth("levenshtein", 3, False, cs), Gen.ELSE])
+        for ths, dm in [(None, False), ([0.95, 0.8], True)]:
+            def expected(d, ths=ths, dm=dm, cs=cs):
+                g = Gen(d)
+                tl = _lst(ths if ths is not None else [0.92, 0.88, 0.7])
+                return [g.null(cs), g.exact(cs)] + [g.th("jaro_winkler", t, cs) for t in tl if t >= 0.88] + ([g.arrint(1, arr)] if dm else []) + \
+                       [g.th("jaro_winkler", t, cs) for t in tl if t < 0.88] + [Gen.ELSE]
+            kw = {}
+            if ths is not None:
+                kw["jaro_winkler_thresholds"] = ths
+            if dm:
+                kw["dmeta_col_name"] = "arr"
+            add("NameComparison", f"{lab}:{ths}:{dm}", lambda kw=kw, cs=cs: cl.NameComparison(cs.splink(), **kw),
+                dict({"name": "str"}, **({"arr": "arr"} if dm else {})), expected)
+    fl, sl = C("fn", ("lower",)), C("sn", ("lower",), ("substr", 1, 4))
+
+    def expected_fs(d):
+        g = Gen(d)
+        return [g.merge("and", [g.null(fl), g.null(sl)], null=True), g.merge("and", [g.exact(fl), g.exact(sl)]), g.rev(fl, sl, True)] + \
+               [g.merge("and", [g.th("jaro_winkler", t, fl), g.th("jaro_winkler", t, sl)]) for t in [0.92, 0.88]] + [g.exact(sl), g.exact(fl), Gen.ELSE]
+    add("ForenameSurnameComparison", "CE:lower,substr", lambda: cl.ForenameSurnameComparison(fl.splink(), sl.splink()), {"fn": "str", "sn": "str"}, expected_fs)
+    el = C("email", ("lower",))
+    eu = C("email", ("lower",), ("regex", EMAIL_USER, 0))
+    add("EmailComparison", "CE:lower", lambda: cl.EmailComparison(el.splink()), {"email": "email"},
+        lambda d: [Gen(d).null(el), Gen(d).exact(el), Gen(d).exact(eu), Gen(d).th("jaro_winkler", 0.88, el), Gen(d).th("jaro_winkler", 0.88, eu), Gen.ELSE],
+        ocols=[eu])
+    pl = C("pc", ("lower",))
+    add("PostcodeComparison", "CE:lower", lambda: cl.PostcodeComparison(pl.splink(), invalid_postcodes_as_null=True), {"pc": "postcode"},
+        lambda d: [Gen(d).null(C("pc", ("lower",), ("regex", PC_VALID, 0))), Gen(d).exact(pl), Gen(d).exact(C("pc", ("lower",), ("regex", PC_SECTOR, 0))),
+                   Gen(d).exact(C("pc", ("lower",), ("regex", PC_DISTRICT, 0))), Gen(d).exact(C("pc", ("lower",), ("regex", PC_AREA, 0))), Gen.ELSE],
+        ocols=[C("pc", ("lower",), ("regex", p_, 0)) for p_ in (PC_VALID, PC_SECTOR, PC_DISTRICT, PC_AREA)],
+        tags={"invalid_as_null": True, "lat_long_supplied": False})
+    dsub = C("dob", ("substr", 1, 10))
+    add("DateOfBirthComparison", "CE:substr", lambda: cl.DateOfBirthComparison(dsub.splink(), input_is_string=True), {"dob": "date"},
+        lambda d: [Gen(d).null(C("dob", ("substr", 1, 10), ("date", None))), Gen(d).exact(dsub), Gen(d).th("damerau_levenshtein", 1, dsub)] +
+                  [Gen(d).td(C("dob", ("substr", 1, 10), ("date", None)), t, m) for t, m in zip([1, 1, 10], ["month", "year", "year"])] + [Gen.ELSE],
+        ocols=[C("dob", ("substr", 1, 10), ("date", None))], tags={"custom_datetime_format": False, "invalid_as_null": True})
     add("CustomComparison", "levels", lambda: cl.CustomComparison(
         output_column_name="name",
         comparison_levels=[cll.NullLevel("name"), cll.ExactMatchLevel("name"), cll.LevenshteinLevel("name", 1),
